@@ -90,8 +90,11 @@ Definition vm_case (cr : crypto) (cx : context) (vmversion : N) (statedata args 
     match (push_all push_alt statedata ;;; push_all push args) s0 with
     | RErr e s => {| o_gas := runlimit s; o_err := Some e; o_stack := None; o_trace := []; o_steps := 0%N |}
     | ROk _ s1 =>
-        (* fuel: the potential (limit + stack costs) bounds the number of steps (C07) *)
-        let fuel := Z.to_nat (runlimit s1 + stack_cost (dstack s1) + stack_cost (astack s1) + 2) in
+        (* fuel: every step lowers the potential (limit + stack costs) by >= 1 except CHECKMULTISIG with
+           zero keys, which costs 0 but advances the pc (C07): 2*potential + program length is ample for
+           the generated cases; the proved bound is C07.fuel_bound *)
+        let fuel := Z.to_nat (2 * (runlimit s1 + stack_cost (dstack s1) + stack_cost (astack s1))
+                              + Z.of_nat (length (prog s1)) + 16) in
         match run_tr cr cx fuel s1 [] with
         | (RErr e s, tr) =>
             (* EUnexpected arises only from a recovered panic: Verify's named result gasLeft is then 0 *)
